@@ -16,6 +16,7 @@ type Config struct {
 	Delay    bool   `json:"delay,omitempty"`    // WithRenderDelay, released by a "release" step
 	Notifier bool   `json:"notifier,omitempty"` // WithShutdownNotifier
 	NoOutput bool   `json:"no_output,omitempty"`
+	UserWG   bool   `json:"user_wg,omitempty"` // WithWaitGroup: Wait also waits for a user wait group released ~1 ms after Wait was called
 }
 
 // DecorSpec describes one decorator of a bar (besides the row tag).
@@ -49,6 +50,7 @@ type BarSpec struct {
 	ExtErrAt     int         `json:"ext_err_at,omitempty"`  // k-th extender call fails
 	BarWidth     int         `json:"bar_width,omitempty"`
 	NoTag        bool        `json:"no_tag,omitempty"`
+	ID           int         `json:"id,omitempty"` // BarID option (0 = not set)
 	Builtins     []string    `json:"builtins,omitempty"` // built-in decorators appended: avgeta avgspeed ewmaeta ewmaspeed pct counters elapsed name spinner
 }
 
